@@ -45,6 +45,10 @@ def gen(rng, tier):
             P = contents(rng, 9); S = contents(rng, 16)
             cases.append(Case("pbkdf2 %s %s %s 1 %d" % (t, hexs(P), hexs(S), dk), "vec %s blocks>255" % t, True, spec="spec.pbkdf2 %s %s %s 1 %d" % (t, hexs(P), hexs(S), dk)))
             cases.append(Case("pbkdf2buf %s %s %s 1 %d" % (t, hexs(P), hexs(S), dk), "buf %s blocks>255" % t, True, spec="spec.pbkdf2buf %s %s %s 1 %d" % (t, hexs(P), hexs(S), dk)))
+        # block indices beyond 65535 (third byte of INT(i)): 65538 blocks, only the last four are compared
+        if t == "sha1" or tier == "thorough":
+            P = contents(rng, 9); S = contents(rng, 16)
+            cases.append(Case("pbkdf2tail %s %s %s 1 65538 4" % (t, hexs(P), hexs(S)), "tail %s blocks>65535" % t, True, spec="spec.pbkdf2tail %s %s %s 1 65538 4" % (t, hexs(P), hexs(S))))
         # larger iteration counts (thorough): RFC 6070 style
         # (65537 iterations: a 16-bit loop counter would wrap; the extracted model needs ~8 ms per iteration, so thorough tier, SHA-1 only)
         for c in ([50] if tier == "quick" else ([1000, 4096, 65537] if t == "sha1" else [1000, 4096])):
@@ -77,4 +81,5 @@ def key(case, impl, model):
 
 def spec_cost(case):
     p = case.line.split()
+    if p[0] == "pbkdf2tail": return 10
     return int(p[-2]) * (int(p[-1]) // 20 + 1)            # iterations x blocks
